@@ -272,6 +272,19 @@ pub fn load(image: &[u8], wrapper: Wrapper, rp: &ReaderPlan, limit: Option<u64>,
         }
         Wrapper::File | Wrapper::ReadFile => {
             let path = tmp_path("in");
+            if wrapper == Wrapper::ReadFile && image.len() > 200 {
+                // In-place update: the same path first holds (and is loaded as) a same-length
+                // sibling that differs in one byte, then the real content. Whatever a loader
+                // remembers about a path must not survive the rewrite.
+                let _pz = alloc::pause();
+                let mut sib = image.to_vec();
+                let k = sib.len() - 1 - (sib.len() / 7);
+                sib[k] ^= 0x01;
+                if std::fs::write(&path, &sib).is_ok() {
+                    let _ = catch_unwind(AssertUnwindSafe(|| AsepriteFile::read_file(&path).map(|_| ())));
+                    let _ = take_panic();
+                }
+            }
             std::fs::write(&path, image).expect("harness: cannot write temp file");
             let r = if wrapper == Wrapper::File {
                 let f = std::fs::File::open(&path).expect("harness: cannot open temp file");
